@@ -942,10 +942,13 @@ fn poller_run(steps: &[Step], phc_cfg: bool, dir: &std::path::Path, vary_report:
             let (iv, off, dl) = if vary_report { ([16.0, 0.0625, 0.0, 0.3, 1024.0][k % 5], [0.001, -0.02, 0.0][k % 3], [0.01, 0.5, 0.0001, 0.0][k % 4]) } else { (16.0, 0.001, 0.01) };
             let spec = |id: u32| TrackSpec { ref_id: id, leap: 0, ref_time_ns: R0, offset_bits: encode_float(off), delay_bits: encode_float(dl), disp_bits: encode_float(0.01), interval_bits: encode_float(iv) };
             let real_now = R0 + (s.now - m0) + s.real_off;
+            // chronyd's reference time moves when chronyd takes a sample (every 16 s here), not at every poll:
+            // consecutive reports share it
+            let fresh_ref = real_now - S - (s.now - m0).rem_euclid(16 * S);
             let sent: Option<TrackSpec> = match stp.ans {
-                Ans::TrackA => Some(TrackSpec { ref_time_ns: real_now - S, ..spec(ID_A) }),
-                Ans::TrackB => Some(TrackSpec { ref_time_ns: real_now - S, ..spec(ID_B) }),
-                Ans::Unsync => Some(TrackSpec { leap: 3, ref_time_ns: real_now - S, ..spec(ID_B) }),
+                Ans::TrackA => Some(TrackSpec { ref_time_ns: fresh_ref, ..spec(ID_A) }),
+                Ans::TrackB => Some(TrackSpec { ref_time_ns: fresh_ref, ..spec(ID_B) }),
+                Ans::Unsync => Some(TrackSpec { leap: 3, ref_time_ns: fresh_ref, ..spec(ID_B) }),
                 Ans::Stale => Some(TrackSpec { ref_time_ns: real_now - 129 * S, ..spec(ID_B) }),
                 Ans::Silent | Ans::Other => None,
             };
